@@ -387,6 +387,21 @@ def _confirm(ob, built, drv, shape, problems, secs, nq):
                                 "found_by": "structural mismatch in the stubbed model; natively a signature made by sign_seeded is %s"
                                             % ("rejected" if exp else "accepted after flipping bit %d" % flip)},
                                "z3-bv+replay", secs, nq)
+    # (1a) a library-made signature with bytes appended / removed must be rejected
+    if siglen != 48 and namelen == 0 and datalen == 24:
+        for it in range(8):
+            base = {"seed": [r.getrandbits(8) for _ in range(32)], "name": [], "data": [r.getrandbits(8) for _ in range(24)]}
+            parts = built.native("drv_%s_parts0" % curve, base)
+            sg = list(parts["sig"])
+            sg = (sg + [0] * (siglen - 48)) if siglen > 48 else sg[:siglen]
+            inp = {"pk": list(parts["pk"]), "sig": sg, "name": [], "data": base["data"]}
+            nat = built.native(drv, inp)["st"][0]
+            if nat == 1:
+                return ob.fail({"key": "%s.verify" % curve, "problems": problems,
+                                "inputs": {k: bytes(v).hex() for k, v in inp.items()}, "native": nat, "expected": 0,
+                                "found_by": "structural mismatch; natively a valid signature %s is accepted"
+                                            % ("with trailing bytes" if siglen > 48 else "truncated")},
+                               "z3-bv+replay", secs, nq)
     # (1b) non-canonical s (s + r) on a library-made signature must be rejected
     for it in range(12):
         inp = {"seed": [r.getrandbits(8) for _ in range(32)], "name": [], "data": [r.getrandbits(8) for _ in range(24)], "flip": 2000}
@@ -428,7 +443,7 @@ def _confirm(ob, built, drv, shape, problems, secs, nq):
     return ob.unknown("structural mismatch (%s) not confirmed natively" % "; ".join(problems)[:300])
 
 
-QUICK = [("jq255e", 48, 0, 8), ("jq255e", 47, 0, 1), ("jq255e", 49, 0, 1), ("jq255e", 48, 3, 8), ("jq255e", 48, 0, 0),
+QUICK = [("jq255e", 48, 0, 8), ("jq255e", 47, 0, 24), ("jq255e", 49, 0, 24), ("jq255s", 49, 0, 24), ("jq255e", 48, 3, 8), ("jq255e", 48, 0, 0),
          ("jq255e", 48, 0, 70), ("jq255s", 48, 0, 8), ("jq255s", 48, 6, 32), ("jq255s", 0, 0, 0)]
 THOROUGH = QUICK + [("jq255e", 48, n, d) for n in (1, 8) for d in (0, 1, 63, 64, 65)] + [("jq255s", 48, 0, d) for d in (1, 64, 129)]
 
